@@ -649,7 +649,10 @@ where
             //= https://www.rfc-editor.org/rfc/rfc9114#section-6.2.3
             //# They MAY also be
             //# sent on connections where no data is currently being transferred.
-            ready!(self.poll_grease_stream(cx));
+            // The frame in `res` has already been taken from the control stream: it must be
+            // returned even if the grease stream cannot make progress right now (it is polled
+            // again on the next call as long as the flag is set).
+            let _ = self.poll_grease_stream(cx);
         }
 
         Poll::Ready(Ok(res))
